@@ -211,3 +211,5 @@ META = {
     "assumptions": ["only one worker runs at a time (baton); switches happen at the wrapped call sites only",
                     "the other module-level objects (default string registry, Jinja templates, class attributes) are not written during generation"],
 }
+if isinstance(META.get("bounds"), dict) and "quick" in META["bounds"]:
+    META["bounds"]["quick"] += '; two pipelines with the datetime classes registered, run from a worker thread'
